@@ -1,12 +1,42 @@
-"""Runs inside the staged interpreter: python -m vlib.impl_main <prop module> <cases.json> <out.json>"""
+"""Runs inside the staged interpreter: python -m vlib.impl_main <prop module> <cases.json> <out.json>
+
+VERIF_AMBIENT (comma list) puts the process into a particular HISTORY before the cases run; the runner compares the results with
+those of a fresh process (the properties hold for every history of the process-wide configuration):
+  failed  -- configuration calls that are rejected (unknown locale, invalid week day): they must leave everything as it was
+  week    -- week_starts_at(SUNDAY), week_ends_at(SATURDAY)          (documented configuration API)
+  locale  -- set_locale("de")
+  localtz -- set_local_timezone(Asia/Kathmandu)
+"""
 import importlib
 import json
+import os
 import sys
+
+
+def ambient(spec):
+    import pendulum
+    what = [w for w in spec.split(",") if w]
+    if "failed" in what:
+        for f, a in ((pendulum.set_locale, "tlh"), (pendulum.set_locale, ""), (pendulum.week_starts_at, 9), (pendulum.week_ends_at, -1),
+                     (pendulum.locale, "xx_YY")):
+            try:
+                f(a)
+            except Exception:  # noqa: the call is expected to be rejected
+                pass
+    if "week" in what:
+        pendulum.week_starts_at(pendulum.SUNDAY)
+        pendulum.week_ends_at(pendulum.SATURDAY)
+    if "locale" in what:
+        pendulum.set_locale("de")
+    if "localtz" in what:
+        pendulum.set_local_timezone(pendulum.timezone("Asia/Kathmandu"))
 
 
 def main():
     mod = importlib.import_module("props." + sys.argv[1])
     cases = json.load(open(sys.argv[2]))
+    if os.environ.get("VERIF_AMBIENT"):
+        ambient(os.environ["VERIF_AMBIENT"])
     out = mod.impl_run(cases)
     json.dump(out, open(sys.argv[3], "w"))
 
